@@ -103,13 +103,15 @@ def stage_specs(workdir, *spec_dirs):
 
 
 def run_tlc(workdir, module, cfg=None, workers=None, dump=None, simulate=None, depth=None, seed=None,
-            coverage=False, env=None, timeout=3600, extra=(), dfs=False, heap=None):
+            coverage=False, env=None, timeout=3600, extra=(), dfs=False, heap=None, stack=None):
     """run TLC in workdir on module.tla with cfg (file name in workdir). Returns TLCResult."""
     meta = os.path.join(workdir, "meta_" + module + "_" + str(os.getpid()))
     shutil.rmtree(meta, ignore_errors=True)
     cmd = ["java", "-XX:+UseParallelGC"]
     if heap:
         cmd.append("-Xmx" + heap)
+    if stack:
+        cmd.append("-Xss" + stack)
     if dfs:
         cmd.append("-Dtlc2.tool.queue.IStateQueue=StateDeque")
     cmd += ["-cp", JAVA_CP, "tlc2.TLC", "-workers", str(workers or NCPU), "-metadir", meta, "-noGenerateSpecTE"]
